@@ -108,6 +108,7 @@ func Check(sp *Spec) string {
 		order = append(order, st)
 	}
 	msgIdx := map[string]int{}
+	outTag := map[string]string{}
 	putRes := map[string]string{}
 	var puts []PutRec
 	nmsg := 0
@@ -124,9 +125,7 @@ func Check(sp *Spec) string {
 	for _, e := range sp.JL.E {
 		switch e.Kind {
 		case "put":
-			if v := boundary("next Put"); v != "" {
-				return v
-			}
+			e.Msg = base(e.Msg)
 			if sp.Ignore[e.Msg] {
 				cur = e.Msg
 				continue
@@ -142,6 +141,7 @@ func Check(sp *Spec) string {
 			putRes[e.Msg] = e.Res
 			cur = e.Msg
 			if e.Res == "ok" {
+				outTag[e.Msg] = e.Out
 				m := msgs[e.Msg]
 				var tp []string
 				if m != nil {
@@ -153,9 +153,6 @@ func Check(sp *Spec) string {
 				replayerDead = true
 			}
 		case "replay":
-			if v := boundary("next Replay"); v != "" {
-				return v
-			}
 			cur = ""
 			st := subs[e.Sub]
 			if st == nil {
@@ -212,15 +209,13 @@ func Check(sp *Spec) string {
 					return fmt.Sprintf("%s received %s, which never went through the replayer's Put", e.Sub, b)
 				}
 				// no replayer witness (dead or absent): order messages by first appearance
-				if v := boundary("next message"); v != "" {
-					return v
-				}
 				msgIdx[b] = nmsg
 				nmsg++
 				cur = b
 			}
-			if b != cur {
-				return fmt.Sprintf("%s: Send of %s outside the fan-out of that message (Joe was handling %q)", e.Sub, b, cur)
+			cur = b
+			if st.dirty {
+				return fmt.Sprintf("%s: Send of %s was not followed by a Flush before the next message (%s) was sent to it", e.Sub, st.pending, b)
 			}
 			m := msgs[b]
 			if m == nil {
@@ -247,6 +242,9 @@ func Check(sp *Spec) string {
 			}
 			if n := len(st.liveIdx); n > 0 && st.liveIdx[n-1] > msgIdx[b] {
 				return fmt.Sprintf("%s received %s after a message that Joe serialised later", e.Sub, b)
+			}
+			if want, ok := outTag[b]; ok && want != "" && e.Msg != want {
+				return fmt.Sprintf("%s received %s live, but the replayer's Put returned it as %s (same event, different ID)", e.Sub, e.Msg, want)
 			}
 			if e.Res == "ok" {
 				st.live = append(st.live, e.Msg)
